@@ -281,6 +281,14 @@ def search_C19(seed):
     from nrel.hive.reporting.vehicle_event_ops import construct_station_load_events
     from nrel.hive.reporting.reporter import Report, ReportType
     rnd = random.Random(seed)
+    # waiting / travel times are cyclic differences of times of day (time_diff)
+    from datetime import time as dtime
+    from nrel.hive.util.time_helpers import time_diff
+    a_, b_ = rnd.choice([0, 1, 43200, 86250, 86399, rnd.randrange(86400)]), rnd.choice([0, 1, 150, 43200, 86399, rnd.randrange(86400)])
+    tt = lambda x: dtime(x // 3600, x % 3600 // 60, x % 60)
+    got_ = time_diff(tt(a_), tt(b_)).total_seconds()
+    if got_ != (b_ - a_) % 86400:
+        return f"time_diff({tt(a_)}, {tt(b_)}) = {time_diff(tt(a_), tt(b_))} ({got_} s), the time from the first to the second is {(b_ - a_) % 86400} s"
     stations = tuple(mock_station_from_geoid(station_id=f"s{i}", geoid=rnd.choice(CELLS)) for i in range(3))
     sim = mock_sim(stations=stations, sim_time=SimTime(600), sim_timestep_duration_seconds=60)
     reports, want = [], {s.id: 0.0 for s in stations}
@@ -413,6 +421,50 @@ def search_C15(seed):
     return None
 
 
+def c01_child(seed):
+    """one process of the C01 search: a small random scenario driven by the built-in Dispatcher for three steps; prints a
+    digest of the vehicle activities, positions and dispatched requests"""
+    from nrel.hive.dispatcher.instruction_generator.dispatcher import Dispatcher
+    from nrel.hive.state.simulation_state.update.step_simulation import StepSimulation
+    rnd = random.Random(seed)
+    cfg = mock_config()
+    env = mock_env(cfg)
+    ring = sorted(h3.k_ring(h3.h3_to_parent(somewhere(), 9), 1))
+    pts = [h3.h3_to_center_child(c, 15) for c in ring]
+    vehicles = tuple(mock_vehicle_from_geoid(vehicle_id=f"v{i}", geoid=rnd.choice(pts[:2])) for i in range(rnd.randint(1, 2)))
+    sim = mock_sim(vehicles=vehicles, sim_time=SimTime(60), sim_timestep_duration_seconds=60)
+    origin = rnd.choice(pts)
+    names_ = ["r_ada", "r_bob", "r_cyd", "r_dee", "r_eve", "r_fay", "r_gus"]
+    for k in range(rnd.randint(3, 7)):
+        # ties on purpose: same origin, same value, same departure time
+        sim = ops.add_entity(sim, mock_request_from_geoids(request_id=names_[k], origin=origin, destination=pts[(k + 3) % len(pts)],
+                                                           departure_time=SimTime(0), value=5))
+    step = StepSimulation.from_tuple((Dispatcher(cfg.dispatcher),))
+    out = []
+    for _ in range(3):
+        sim, step = step.update(sim, env)
+        sim = ops.tick(sim)
+        out.append(sorted((v.id, name(v), v.geoid, getattr(v.vehicle_state, "request_id", "")) for v in sim.get_vehicles())
+                   + sorted((r.id, r.dispatched_vehicle or "") for r in sim.get_requests()))
+    print("DIGEST", repr(out))
+
+
+def search_C01(seed):
+    """the same scenario in processes with different interpreter hash seeds: identical digests"""
+    import subprocess, os
+    outs = {}
+    for hs in ("0", "1", "2", "3", "5", "11"):
+        p_ = subprocess.run([sys.executable, os.path.abspath(__file__), "C01-child", str(seed)], capture_output=True, text=True,
+                            env=dict(os.environ, PYTHONHASHSEED=hs))
+        d = [l for l in p_.stdout.splitlines() if l.startswith("DIGEST")]
+        outs[hs] = d[0] if d else "no digest: " + p_.stderr[-200:]
+    if len(set(outs.values())) > 1:
+        a_, b_ = sorted(set(outs.values()))[:2]
+        return ("the same scenario gives different results under different interpreter hash seeds "
+                f"({ {k: sorted(set(outs.values())).index(v) for k, v in outs.items()} }): {a_[:300]} ... vs ... {b_[:300]}")
+    return None
+
+
 def search_C20(seed):
     """time_in_range on random times of day including every boundary: x is on shift iff it lies in the cyclic half-open
     interval [start, end)"""
@@ -531,10 +583,16 @@ def search_C14(seed):
 
 def main():
     pid, seed = sys.argv[1], int(sys.argv[2])
+    if pid == "C01-child":
+        c01_child(seed)
+        return 0
     n = int(sys.argv[3]) if len(sys.argv) > 3 else 150
-    if pid in ("C06", "C09", "C11", "C13", "C14", "C15", "C19", "C20"):
+    if pid == "C01":
+        n = min(n, 12)          # six processes per scenario
+    if pid in ("C01", "C06", "C09", "C11", "C13", "C14", "C15", "C19", "C20"):
         fn_, what_ = {"C06": (search_C06, "traverse() over a random multi-link route"), "C13": (search_C13, "route() on an in-memory 4x4 street grid"),
                       "C14": (search_C14, "route() on a random in-memory street grid with mixed link speeds"),
+                      "C01": (search_C01, "one scenario with tied requests, built-in Dispatcher, six interpreter hash seeds"),
                       "C09": (search_C09, "DictOps stack dictionary operations against a list model"),
                       "C11": (search_C11, "_add_row_to_this_update on random price rows against a dict model"),
                       "C20": (search_C20, "time_in_range on random times of day and every boundary"),
